@@ -47,9 +47,17 @@ def check(ctx):
         N = len(sc["numbers"])
         for orders in ([[2, 3], [2, 3, 4]] if N <= 2 else [[2, 3]]):
             run_cell(ctx, rng, sc, list(orders))
+        # the same with a cutoff between two neighbour shells (the distance code sees the transformed description)
+        from reference import min_image_distances
+        dist = min_image_distances(np.asarray(sc["lattice"], float), np.asarray(sc["positions"], float))
+        shells = sorted(set(np.round(dist[dist > 1e-8], 6).tolist()))
+        if len(shells) >= 2:
+            for pos in sorted({1, len(shells) // 2, len(shells) - 1}):
+                cut = (shells[pos - 1] + shells[pos]) / 2
+                run_cell(ctx, rng, sc, [2, 3], cutoff={2: cut, 3: cut})
 
 
-def run_cell(ctx, rng, sc, orders):
+def run_cell(ctx, rng, sc, orders, cutoff=None):
     from symfc import Symfc
     from symfc.utils.utils import SymfcAtoms
 
@@ -60,12 +68,16 @@ def run_cell(ctx, rng, sc, orders):
     n = 14 if N <= 2 else 10
     d = rng.normal(size=(n, N, 3)) * 0.08
     f = rng.normal(size=(n, N, 3))
-    base = Symfc(atoms_of(sc), displacements=d, forces=f).compute_basis_set(orders=orders)
+    mk = lambda at_, d_, f_: Symfc(at_, displacements=d_, forces=f_, cutoff=None if cutoff is None else dict(cutoff))  # noqa: E731
+    try:
+        base = mk(atoms_of(sc), d, f).compute_basis_set(orders=orders)
+    except (IndexError, ValueError):
+        return
     if any(b.basis_set.shape[1] == 0 for b in base.basis_set.values()):
         orders = [k for k in orders if base.basis_set[k].basis_set.shape[1] > 0]
         if not orders:
             return
-        base = Symfc(atoms_of(sc), displacements=d, forces=f).compute_basis_set(orders=orders)
+        base = mk(atoms_of(sc), d, f).compute_basis_set(orders=orders)
     try:
         base.solve(orders=orders, is_compact_fc=False)
     except (np.linalg.LinAlgError, RuntimeError):
@@ -79,24 +91,24 @@ def run_cell(ctx, rng, sc, orders):
     for nm, sh in (("origin-random", rng.random(3)), ("origin-onto-0.5", 0.5 - X[0]), ("origin-onto-0.5-1e-9", 0.5 - 1e-9 - X[0]), ("origin-onto-0", -X[-1])):
         trs.append((nm, L, X + sh, Z, d, f, None))
     trs.append(("integer-wraps", L, X + rng.integers(-3, 4, size=(N, 3)), Z, d, f, None))
-    for U in ([[1, 0, 0], [1, 1, 0], [0, 0, 1]], [[1, 2, 0], [0, 1, 0], [1, 0, 1]], [[0, 1, 0], [0, 0, 1], [1, 0, 0]], [[-1, 0, 0], [0, 1, 0], [0, 0, 1]]):
+    for U in ([[1, 0, 0], [2, 1, 0], [1, -3, 1]], [[1, 0, 0], [1, 1, 0], [0, 0, 1]], [[1, 2, 0], [0, 1, 0], [1, 0, 1]], [[0, 1, 0], [0, 0, 1], [1, 0, 0]], [[-1, 0, 0], [0, 1, 0], [0, 0, 1]]):
         U = np.array(U)
         trs.append((f"unimodular{U.tolist()}", U @ L, X @ np.linalg.inv(U), Z, d, f, None))
     for imp in (False, True):
         Q = rand_rotation(rng, imp)
         trs.append(("rotation-" + ("improper" if imp else "proper"), L @ Q.T, X, Z, d @ Q.T, f @ Q.T, ("rot", Q)))
     if ctx.quick:
-        trs = trs[:4] + trs[5:7] + trs[-2:]
+        trs = trs[:4] + trs[5:8] + trs[-2:]
     for nm, L2, X2, Z2, d2, f2, back in trs:
         at2 = SymfcAtoms(numbers=Z2, scaled_positions=X2, cell=L2)
-        ctx.case({"cell": sc["name"], "transformation": nm, "orders": orders}, nontrivial=True)
+        ctx.case({"cell": sc["name"], "transformation": nm, "orders": orders, "cutoff": None if cutoff is None else round(list(cutoff.values())[0], 4)}, nontrivial=True)
         ctx.count("tr:" + nm.split("[")[0])
-        rep = {"cell": sc["name"], "transformation": nm, "lattice": np.asarray(L2).tolist(), "positions": np.asarray(X2).tolist(), "numbers": [int(z) for z in Z2], "orders": orders}
+        rep = {"cell": sc["name"], "transformation": nm, "cutoff": cutoff, "lattice": np.asarray(L2).tolist(), "positions": np.asarray(X2).tolist(), "numbers": [int(z) for z in Z2], "orders": orders}
         # the order-4 tables lack the (ia,ia,jb,jb) pattern (known finding C04/order4/pattern-aabb); forcing those
         # elements to zero is not a rotation-covariant condition, so order-4 results depend on the Cartesian frame
         known = (4 in orders) and nm.startswith("rotation")
         try:
-            o2 = Symfc(at2, displacements=d2, forces=f2).run(orders=orders, is_compact_fc=False)
+            o2 = mk(at2, d2, f2).run(orders=orders, is_compact_fc=False)
         except Exception as e:  # noqa: BLE001
             ctx.fail("oracle", f"C10/oracle/raised/{nm.split('[')[0]}", f"{sc['name']} described via {nm}: {type(e).__name__}: {e}", replay=rep, has_input=True)
             continue
